@@ -242,7 +242,9 @@ class MEDDLY::terminal {
                     } x;
                     x.f = t_real;
                     // strip the lsb in fraction, and add sign bit
-                    return (x.h>>1) | msb();
+                    const node_handle h = (x.h>>1) | msb();
+                    // a value that rounds to +-0 must get the zero handle
+                    return ((h << 1) & ~msb()) ? h : 0;
                 } else {
                     MEDDLY_DCASSERT(sizeof(node_handle) == sizeof(double));
                     union {
@@ -251,7 +253,9 @@ class MEDDLY::terminal {
                     } x;
                     x.d = t_real;
                     // strip the lsb in fraction, and add sign bit
-                    return (x.h>>1) | msb();
+                    const node_handle h = (x.h>>1) | msb();
+                    // a value that rounds to +-0 must get the zero handle
+                    return ((h << 1) & ~msb()) ? h : 0;
                 }
             } else {
                 return 0;
